@@ -41,7 +41,9 @@ def merge_leading_dims(x, num_dims):
         raise ValueError(
             "Number of leading dims can't be greater than total number of dims."
         )
-    new_shape = torch.Size([-1]) + x.shape[num_dims:]
+    # Explicit size of the merged dimension (-1 cannot be inferred when a trailing dimension is 0).
+    merged = int(np.prod(x.shape[:num_dims]))
+    new_shape = torch.Size([merged]) + x.shape[num_dims:]
     return torch.reshape(x, new_shape)
 
 
